@@ -297,9 +297,39 @@ def cases(draw, tier):
 
 NSH = 16
 
+EXH_STATES = c01.START_STATES + [
+    [["mkdir", "a"], ["mkdir", "a/a"], ["mkdir", "a/ab"], ["create", "a/ab/a"], ["mkdir", "ab"], ["mkdir", "ab/a"], ["create", "b"], ["prebuild", "o1", [["a", "d"]], "d"]],
+]
+
+
+def exhaustive_cases(tier):
+    """Every single op (thorough: every pair of ops, drained in between) from a few start states that contain sibling
+    directories with prefix-related names; afterwards every start directory is probed (the oracle of run_case)."""
+    opts = {"names": ["a", "ab"], "depth": 3, "ext": True}
+    for init in EXH_STATES:
+        m0 = fsops.model_after_init(init)
+
+        def ops_of(m, tag):
+            for op in fsops.candidate_ops(m, opts):
+                if op[0] in ("read", "chmod", "write"):
+                    continue
+                if op[0] == "move_out":
+                    op = ("move_out", op[1], f"x{tag}")
+                if op[0] == "ext_rename":
+                    op = ("ext_rename", op[1], f"y{tag}")
+                yield op
+
+        for op1 in ops_of(m0, 0):
+            yield {"cfg": {"recursive": True}, "init": init, "bursts": [[list(op1)]]}
+            if tier == "thorough":
+                m1 = m0.copy()
+                fsops.apply_op(m1, op1)
+                for op2 in ops_of(m1, 1):
+                    yield {"cfg": {"recursive": True}, "init": init, "bursts": [[list(op1)], [list(op2)]]}
+
 
 def shards(tier, seed):
-    return [("hyp", tier, seed, i) for i in range(NSH)]
+    return [(k, tier, seed, i) for i in range(NSH) for k in ("hyp", "exh")]
 
 
 def run_shard(spec):
@@ -308,6 +338,25 @@ def run_shard(spec):
     count = [0]
     probed = [0]
     hits = [0]
+    if kind == "exh":
+        st_.exhaustive = True
+        n = 0
+        for k, case in enumerate(exhaustive_cases(tier)):
+            if k % NSH != i:
+                continue
+            n += 1
+            try:
+                info = run_case(case)
+            except Violation as v:
+                st_.fail(case, v.message, v.signature, v.extra)
+                st_.exhaustive = False
+                continue
+            probed[0] += info["probed"]
+            nt, cl = classes_of(case, info)
+            st_.case(case, nt or case["bursts"][0][0][0] in ("move_out", "rmtree", "rename"), cl + ["exhaustive-op-then-probe"], sample=case if n % 30 == 1 else None)
+        st_.extra["exhaustive_cases"] = n
+        st_.extra["start_dirs_probed"] = probed[0]
+        return st_
 
     def body(case):
         count[0] += 1
